@@ -46,6 +46,18 @@ CLAIMED = {
         note="Trusted: TLC; per-limb kernels are symbolic here (validated by C07/C09); rotation/automorphism payloads use the "
              "numpy reference map that C09 binds to the specification. Strides other than N, N+delta, 2N only sampled.",
         technique="TLA+ loop-level model checked exhaustively with TLC + replay of every enumerated case + TLC trace validation"),
+    "C16": dict(
+        category="exploration",
+        text="The API machine Spqlios.tla (one action per public entry point with its definition in Z[X]/(X^N0+1), typed object "
+             "store, budget tracking, in-place and overwrite variants) is the exact interpreter: TLC -simulate draws random "
+             "well-typed in-budget programs for both module types; each is replayed on the real library lifted to N=N0*t (t up to "
+             "16384) under both dispatch configurations, and after every call the written object is projected to integers (DFT and "
+             "prepared objects through the library's own idft/apply) and compared, every other object byte-compared. Exploration: "
+             "the program space is sampled, the oracle is the specification.",
+        design_ref="DESIGN.md section 4 C16",
+        note="Trusted: TLC, the ring embedding X->Y^t (commutes with every modelled operation), small operands so that FFT64 results "
+             "are exact. Program space sampled (seeded by VERIF_SEED).",
+        technique="TLA+ API state machine simulated by TLC; generated behaviours replayed step by step on the real library"),
 }
 
 NOT_YET = "check not built yet in this session (planned, see DESIGN.md section 8)"
